@@ -69,29 +69,4 @@ theorem Here.emit_bin {w : World} {P0 : List Op} {s : St} {d : Dec} (h : Here w 
   obtain ⟨h1, h2⟩ := h.emit (.encodeBin fl fh 15) hp
   exact ⟨h1.1, h1.2, h2⟩
 
-/-! ### Transient flag -/
-
-theorem transient_sync {w : World} {P0 : List Op} {s : St} {d : Dec} (h : Here w P0 s d) (cfg : EncCfg) (totE totD : Int)
-    (hp : w.IsPrefix (P0 ++ (encTransient cfg totE s).2.ops))
-    (hbud : (tell s.e + 3 ≤ totE) ↔ (tell s.e + 3 ≤ totD)) :
-    let r := Opus.CeltSyms.readTransient cfg.LM totD (tell d) d
-    r.1 = (encTransient cfg totE s).1 ∧ Here w P0 (encTransient cfg totE s).2 r.2.2.1 ∧ r.2.1 = tell r.2.2.1 := by
-  intro r
-  have hpre : w.IsPrefix (P0 ++ s.ops) := by
-    unfold encTransient at hp
-    split at hp
-    · exact World.isPrefix_of_append (by rw [List.append_assoc]; exact (by simpa [emit_ops, pop_ops] using hp))
-    · exact hp
-  obtain ⟨ht, _, _, _⟩ := h.tells hpre
-  simp only [r, Opus.CeltSyms.readTransient, encTransient, ht]
-  by_cases hc : cfg.LM > 0 ∧ tell s.e + 3 ≤ totE
-  · have hc' : cfg.LM > 0 ∧ tell s.e + 3 ≤ totD := ⟨hc.1, hbud.mp hc.2⟩
-    simp only [hc, hc', and_self, if_true]
-    simp only [encTransient, hc, and_self, if_true] at hp
-    obtain ⟨e1, e2⟩ := h.pop.emit_bit (if s.pop.1 ≠ 0 then 1 else 0) 3 (by split <;> omega) hp
-    exact ⟨e1, e2, trivial⟩
-  · have hc' : ¬ (cfg.LM > 0 ∧ tell s.e + 3 ≤ totD) := fun hh => hc ⟨hh.1, hbud.mpr hh.2⟩
-    simp only [hc, hc', if_false]
-    exact ⟨trivial, h, ht.symm ▸ rfl⟩
-
 end OpusProofs.CeltHdr
